@@ -69,6 +69,24 @@ func progressFns(p *Prog) map[*ssa.Function]bool {
 				if !domAll {
 					continue
 				}
+				// a verified read-until-full loop whose header is on every path stands for io.ReadFull
+				if isLoopHeader(b) {
+					for _, li := range loopsOf(fn) {
+						if li.header != b {
+							continue
+						}
+						for lb := range li.blocks {
+							for _, ins := range lb.Instrs {
+								if c, ok := ins.(*ssa.Call); ok && isRawReadCall(&c.Call) {
+									if fl, _ := recogniseFillLoop(fn, c); fl != nil && !out[fn] {
+										out[fn] = true
+										changed = true
+									}
+								}
+							}
+						}
+					}
+				}
 				for _, ins := range b.Instrs {
 					if c, ok := ins.(*ssa.Call); ok {
 						if progressPrimitives[calleeName(&c.Call)] {
